@@ -15,6 +15,7 @@ use vharness::{catch, json, worker_main, Ctx, Engine, Fnv, Value};
 const CPU_LIMIT_MS: u64 = 500;
 const WALL_LIMIT_MS: u64 = 1500;
 const LOOP_POLL_HORIZON: usize = 64;
+const SMALL_LOOP_HORIZON: usize = 20_000;
 
 #[derive(Clone, Copy, PartialEq, Debug)]
 enum Emu {
@@ -43,6 +44,8 @@ struct Machine {
     buf: Buffer,
     caret: Caret,
     parser: P,
+    /// the stream is UTF-8: the emulation is fed the decoded characters (characters above U+00FF) instead of one character per byte
+    utf8: bool,
 }
 
 impl Machine {
@@ -56,7 +59,7 @@ impl Machine {
                 P::Igs(Box::new(igs::Parser::new(exe.clone())), exe)
             }
         };
-        Machine { buf, caret: Caret::default(), parser }
+        Machine { buf, caret: Caret::default(), parser, utf8: false }
     }
 
     fn dynp(&mut self) -> (&mut dyn BufferParser, &mut Buffer, &mut Caret) {
@@ -69,22 +72,33 @@ impl Machine {
 
     /// feeds the bytes; returns the panic signature and position if one occurred
     fn feed(&mut self, bytes: &[u8]) -> Option<(String, usize)> {
+        let chars: Vec<char> = if self.utf8 { String::from_utf8_lossy(bytes).chars().collect() } else { bytes.iter().map(|b| *b as char).collect() };
         let (p, buf, caret) = self.dynp();
-        for (i, b) in bytes.iter().enumerate() {
+        for (i, b) in chars.iter().enumerate() {
             match catch(|| {
-                let _ = p.print_char(buf, 0, caret, *b as char);
+                let _ = p.print_char(buf, 0, caret, *b);
             }) {
                 Ok(()) => {}
                 Err(rec) => return Some((rec.signature(), i)),
             }
         }
-        // pending loop steps (IGS): a bounded number of polls
-        for _ in 0..LOOP_POLL_HORIZON {
+        // pending loop steps (IGS): a bounded number of polls. A stream whose numbers are all below 10 cannot ask for more than
+        // 10^3 steps with loops nested three deep: it gets a horizon it must end in.
+        let small = !bytes.windows(2).any(|w| w[0].is_ascii_digit() && w[1].is_ascii_digit());
+        let horizon = if small { SMALL_LOOP_HORIZON } else { LOOP_POLL_HORIZON };
+        let mut ended = false;
+        for _ in 0..horizon {
             match catch(|| p.get_next_action(buf, caret, 0)) {
-                Ok(None) => break,
+                Ok(None) => {
+                    ended = true;
+                    break;
+                }
                 Ok(Some(_)) => {}
                 Err(rec) => return Some((rec.signature(), bytes.len())),
             }
+        }
+        if small && !ended {
+            return Some((format!("stall:loop-still-producing-actions-after-{SMALL_LOOP_HORIZON}-polls"), bytes.len()));
         }
         None
     }
@@ -341,6 +355,8 @@ enum Job {
     RipProbe { cmd: usize, len: usize },
     /// RIP: a continuation backslash at every position of the parameter string (followed by a line break or directly by the next character)
     RipContinuation { cmd: usize },
+    /// characters above U+00FF at every place of a stream that takes text (and in place of parameters)
+    Wide { emu: Emu },
     /// flood fills from a grid of start points over scenes with obstacles, every fill style / border colour (RIP and IGS)
     Fill { emu: Emu, scene: usize },
 }
@@ -360,8 +376,11 @@ fn build(_prop: &str, tier: &str) -> Gfx {
     let mut jobs = Vec::new();
     for ctx in 0..rip_contexts().len() {
         for cmd in 0..rip_cmds.len() {
-            for len in 0..=24usize {
-                jobs.push(Job::Rip { ctx, cmd, len });
+            // 0..=24 with the exhaustive part, 25..=40 (the longest parameter lists of the tables: button style, 36 characters) deviation-bounded
+            for len in 0..=40usize {
+                if len <= 24 || ctx == 0 || thorough {
+                    jobs.push(Job::Rip { ctx, cmd, len });
+                }
             }
             if RIP_TEXT_CMDS.contains(&rip_cmds[cmd].as_str()) {
                 for len in 0..=12usize {
@@ -406,6 +425,8 @@ fn build(_prop: &str, tier: &str) -> Gfx {
     for scene in 0..IGS_SCENES.len() {
         jobs.push(Job::Fill { emu: Emu::Igs, scene });
     }
+    jobs.push(Job::Wide { emu: Emu::Rip });
+    jobs.push(Job::Wide { emu: Emu::Igs });
     jobs.push(Job::Text { emu: Emu::Rip });
     jobs.push(Job::Text { emu: Emu::Igs });
     Gfx { counter: std::cell::Cell::new(0), thorough, jobs, rip_cmds, igs_cmds }
@@ -424,6 +445,7 @@ impl Gfx {
         ctx.count("evaluations", 1);
         ctx.count("transitions", (prefix.len() + stream.len()) as u64);
         let mut m = Machine::new(emu);
+        m.utf8 = key.starts_with("wide ");
         if !prefix.is_empty() {
             if let Some((sig, at)) = m.feed(prefix) {
                 ctx.violation(format!("{sig}:context"), json!({"emulation": format!("{emu:?}"), "context": ctx_name, "stream": show(prefix), "panicked_at_byte": at}));
@@ -559,6 +581,20 @@ impl Engine for Gfx {
                         // loops: from, to, step, delay(0), command, count, parameters
                         let vals = ["0", "3", "99999"];
                         let cmds = [('L', 4), ('B', 5), ('W', 2), ('G', 6)];
+                        if part == 0 {
+                            // every command letter as the loop body, small bounds, every step incl. 0 and negative ones
+                            for c in self.igs_cmds.clone() {
+                                for (from, to) in [("0", "1"), ("1", "0"), ("0", "0"), ("3", "5")] {
+                                    for step in ["0", "1", "2", "-1"] {
+                                        for n in [0usize, 1, 2, 4] {
+                                            let p = vec!["0"; n].join(",");
+                                            shapes.push(format!("G#&>{from},{to},{step},0,{c},{n},{p}:\n"));
+                                            shapes.push(format!("G#&{from},{to},{step},0,{c}|{n},{p}:\n"));
+                                        }
+                                    }
+                                }
+                            }
+                        }
                         let (cmd, n) = cmds[part];
                         for from in vals {
                             for to in vals {
@@ -628,8 +664,15 @@ impl Engine for Gfx {
                 let c = self.igs_cmds[cmd];
                 let key = format!("igs {c} then a drawing command");
                 ctx.count("nontrivial", 1);
-                let firsts: Vec<&str> = if k == 0 { vec![""] } else { vec!["0", "1", "2", "3", "4", "9"] };
-                let rests: Vec<&str> = if k <= 1 { vec![""] } else { vec!["0", "1", "15", "16", "99", "199"] };
+                // short lists (the attribute commands, which select a style or a table entry) get every small value in both places
+                let firsts: Vec<&str> = if k == 0 { vec![""] } else if k <= 3 { vec!["0", "1", "2", "3", "4", "5", "6", "7", "8", "9"] } else { vec!["0", "1", "2", "3", "4", "9"] };
+                let rests: Vec<&str> = if k <= 1 {
+                    vec![""]
+                } else if k <= 3 {
+                    vec!["0", "1", "2", "3", "4", "5", "6", "7", "8", "9", "15", "16", "99", "199"]
+                } else {
+                    vec!["0", "1", "15", "16", "99", "199"]
+                };
                 for first in &firsts {
                     for rest in &rests {
                         let mut l: Vec<&str> = Vec::new();
@@ -731,6 +774,31 @@ impl Engine for Gfx {
                     }
                 }
             }
+            Job::Wide { emu } => {
+                ctx.count("nontrivial", 1);
+                let key = format!("wide {} text", if emu == Emu::Rip { "rip" } else { "igs" });
+                for w in ['\u{100}', '\u{2591}', '\u{fffd}', '\u{1f600}', '\u{10ffff}'] {
+                    let templates: Vec<String> = if emu == Emu::Igs {
+                        vec![
+                            format!("G#W20,50,{w}@\n"), format!("G#W20,50,ab{w}cd@\n"), format!("G#E16,3,1:W0,0,{w}{w}@\n"), format!("G#&0,2,1,0,W,2,x,y,{w}@:\n"), format!("{w}\n"), format!("G#{w}1,2:\n"),
+                            format!("G#L{w},0,10,10:\n"), format!("G#X4,1,{w}@\n"), format!("G{w}#L0,0,1,1:\n"),
+                        ]
+                    } else {
+                        let mut v = vec![format!("{w}\n"), format!("!|{w}|\n"), format!("!|L{w}000A0A|\n"), format!("!|1{w}|\n"), format!("!{w}|L00000A0A|\n")];
+                        for c in RIP_TEXT_CMDS {
+                            v.push(format!("!|{c}{w}|\n"));
+                            v.push(format!("!|{c}0A0A00000000ab{w}cd|\n"));
+                            v.push(format!("!|Y04010400|{c}0505{w}{w}|\n"));
+                        }
+                        v.push(format!("!|1U05050K0K0000000<>{w}<>{w}|\n"));
+                        v.push(format!("!|${w}$|\n"));
+                        v
+                    };
+                    for t in templates {
+                        self.run_stream(emu, "initial state", b"", t.as_bytes(), &key, ctx);
+                    }
+                }
+            }
             Job::Text { emu } => {
                 ctx.count("nontrivial", 1);
                 let key = format!("{} text", if emu == Emu::Rip { "rip" } else { "igs" });
@@ -754,6 +822,7 @@ impl Engine for Gfx {
             Job::Igs { cmd, .. } => format!("igs {}", self.igs_cmds[*cmd]),
             Job::IgsShapes { part, .. } => format!("igs shapes {part}"),
             Job::Text { emu } => format!("{emu:?} text"),
+            Job::Wide { emu } => format!("wide {emu:?} text"),
             Job::IgsProbe { cmd, .. } => format!("igs {} then a drawing command", self.igs_cmds[*cmd]),
             Job::RipProbe { cmd, .. } => format!("rip {} then a drawing command", show(self.rip_cmds[*cmd].as_bytes())),
             Job::RipContinuation { cmd } => format!("rip {} with a continuation", show(self.rip_cmds[*cmd].as_bytes())),
